@@ -727,9 +727,15 @@ impl Transaction {
             });
         }
 
-        self.propagate_governance().await?;
-        self.check_reference_closure().await?;
-        self.check_concept_key_identity().await?;
+        // The pre-write checks refuse the whole transaction. Nothing has been
+        // written yet except the shells, and `commit` consumes the
+        // transaction, so the caller cannot `abort` afterwards: the shells
+        // are removed here, or they stay behind in the `pending` state —
+        // which `{state: "pending"}` can read — until the next open.
+        if let Err(err) = self.pre_write_checks().await {
+            self.discard_shells().await;
+            return Err(err);
+        }
 
         // Nothing this transaction touched keeps its shell state, and the
         // version rule is applied here so that a clause touching one element
@@ -813,6 +819,14 @@ impl Transaction {
             changes,
             warnings: self.warnings,
         })
+    }
+
+    /// Everything that can refuse a transaction before its first write.
+    async fn pre_write_checks(&mut self) -> Result<(), KipError> {
+        self.propagate_governance().await?;
+        self.check_reference_closure().await?;
+        self.check_concept_key_identity().await?;
+        Ok(())
     }
 
     /// Abandons everything staged, removing the shells this run minted.
